@@ -2,13 +2,11 @@
 
    [wf]    what any PHP front end checks before running: every break/continue level names an
            enclosing loop or switch of the same function, a switch has at most one default.
-   [clean] the complement of the recorded defect classes of the implementation (each has a
-           `..._refuted` witness in Examples.v and a key in /verif/KNOWN_FINDINGS):
-             * switch fall-through: a clause other than the last whose body can run off its end
-               (syntactically: does not end in break/continue/return/throw) — includes the empty
-               `case 1: case 2:` grouping and a non-final `default`;
-             * `static` at the top level of the script (the main context has no static store);
-             * a closure whose body can run off its end (it yields its last statement's value).
+   [clean] the complement of the recorded defect classes of the implementation.  After the repairs
+           of switch fall-through (/repo 8109483) and of static in the main script (d3ebf7f) one class
+           is left, a whole-program condition: a closure whose body can run off its end (it yields
+           its last statement's value: known finding closure:falloff-value).  [clean_stmt] is kept as the
+           per-statement hook and is true of every statement.
    No proofs in this file. *)
 From Coq Require Import List String ZArith Bool Arith.
 From V.C02 Require Import Lang Spec.
@@ -57,7 +55,6 @@ Fixpoint clean_stmt (m : bool) (s : stmt) {struct s} : bool :=
   | SIf _ t ei e => clean_stmt m t && clean_elifs m ei && clean_stmt m e
   | SWhile _ b | SDoWhile b _ | SFor _ _ _ b | SForeach _ _ _ b => clean_stmt m b
   | SSwitch _ cl => clean_clauses m cl
-  | SStatic _ _ => negb m
   | STry b cs f => clean_stmt m b && clean_catches m cs && clean_stmt m f
   | _ => true
   end
@@ -67,7 +64,7 @@ with clean_clauses (m : bool) (l : clauses) {struct l} : bool :=
   match l with
   | CLNil => true
   | CLCase _ b r | CLDefault b r =>
-      (match r with CLNil => true | _ => ends_jump b end) && clean_stmt m b && clean_clauses m r
+      clean_stmt m b && clean_clauses m r
   end
 with clean_catches (m : bool) (l : catches) {struct l} : bool :=
   match l with CTNil => true | CTCons _ _ b r => clean_stmt m b && clean_catches m r end.
